@@ -102,6 +102,24 @@ class _Canon(ast.NodeTransformer):
             return ast.copy_location(out, n)
         return n
 
+    def _collapse_unpack(self, n):
+        """(E[0], E[1], ..., E[k-1]) with one call E (what `a, b, c = E` followed by (a, b, c) resolves to) -> E"""
+        e = n.elts
+        if len(e) >= 2 and all(isinstance(x, ast.Subscript) and isinstance(x.slice, ast.Constant) and x.slice.value == i
+                               and isinstance(x.value, ast.Call) for i, x in enumerate(e)):
+            t0 = _txt(e[0].value)
+            if all(_txt(x.value) == t0 for x in e[1:]):
+                return e[0].value
+        return n
+
+    def visit_Tuple(self, n):
+        self.generic_visit(n)
+        return self._collapse_unpack(n) if isinstance(n.ctx, ast.Load) else n
+
+    def visit_List(self, n):
+        self.generic_visit(n)
+        return self._collapse_unpack(n) if isinstance(n.ctx, ast.Load) else n
+
     def visit_Call(self, n):
         self.generic_visit(n)
         f = n.func
